@@ -1,4 +1,91 @@
-import Rngs.Model.Xoshiro
+/-
+  C19 — Generators share no hidden state: results are independent of other instances.
+  Frame theorem for the product of any number of model instances under any schedule.  The model's
+  step functions take the instance's own state and nothing else (no global, no thread identity), so
+  the theorem is true by construction of the product; it is stated and proved by induction so that
+  the quantifier over schedules is explicit.  That the *code* has this shape is what the tie checks
+  (interleaved multi-instance runs on several OS threads versus solo runs); real scheduler
+  nondeterminism is sampled there, not enumerated.
+-/
+import Rngs.Model.RandCore
 namespace Rngs.C19
-theorem placeholder : True := trivial
+
+variable {σ Op Out : Type}
+
+/-- instances are indexed by naturals; a heterogeneous collection is covered by taking σ to be the
+    sum of the state types and `step` the case split -/
+abbrev World (σ : Type) := Nat → σ
+
+def World.set (w : World σ) (i : Nat) (s : σ) : World σ := fun j => if j = i then s else w j
+
+/-- run a schedule: each entry says which instance performs which operation next -/
+def runWorld (step : σ → Op → Out × σ) : World σ → List (Nat × Op) → List (Nat × Out) × World σ
+  | w, [] => ([], w)
+  | w, (i, op) :: rest =>
+    let r := step (w i) op
+    let p := runWorld step (w.set i r.2) rest
+    ((i, r.1) :: p.1, p.2)
+
+/-- run one instance alone -/
+def runSolo (step : σ → Op → Out × σ) : σ → List Op → List Out × σ
+  | s, [] => ([], s)
+  | s, op :: ops =>
+    let r := step s op
+    let p := runSolo step r.2 ops
+    (r.1 :: p.1, p.2)
+
+/-- the operations the schedule assigns to instance i, in order -/
+def opsOf (i : Nat) : List (Nat × Op) → List Op
+  | [] => []
+  | (j, op) :: rest => if j = i then op :: opsOf i rest else opsOf i rest
+
+/-- the outputs instance i produced during a world run, in order -/
+def outsOf (i : Nat) : List (Nat × Out) → List Out
+  | [] => []
+  | (j, o) :: rest => if j = i then o :: outsOf i rest else outsOf i rest
+
+/-- **Frame theorem.** For every schedule, every world and every instance i: the values i returns
+    and the state it ends in are exactly those of running i alone on its own operations —
+    whatever the other instances do in between, and in whatever order. -/
+theorem frame (step : σ → Op → Out × σ) (w : World σ) (sched : List (Nat × Op)) (i : Nat) :
+    (outsOf i (runWorld step w sched).1, (runWorld step w sched).2 i) = runSolo step (w i) (opsOf i sched) := by
+  induction sched generalizing w with
+  | nil => rfl
+  | cons hd rest ih =>
+    obtain ⟨j, op⟩ := hd
+    by_cases h : j = i
+    · subst h
+      have := ih (w.set j (step (w j) op).2)
+      simp only [runWorld, outsOf, opsOf, if_true, runSolo]
+      simp only [World.set, if_true] at this
+      rw [← this]
+    · have := ih (w.set j (step (w j) op).2)
+      have hw : (w.set j (step (w j) op).2) i = w i := by simp [World.set, Ne.symm h]
+      simp only [runWorld, outsOf, opsOf, if_neg h]
+      rw [hw] at this
+      exact this
+
+/-- Two schedules that give instance i the same operations (however the other instances'
+    operations are interleaved, added or removed) give i the same outputs and final state. -/
+theorem schedule_irrelevant (step : σ → Op → Out × σ) (w w' : World σ) (s1 s2 : List (Nat × Op)) (i : Nat)
+    (hstate : w i = w' i) (hops : opsOf i s1 = opsOf i s2) :
+    outsOf i (runWorld step w s1).1 = outsOf i (runWorld step w' s2).1 ∧
+    (runWorld step w s1).2 i = (runWorld step w' s2).2 i := by
+  have h1 := frame step w s1 i
+  have h2 := frame step w' s2 i
+  rw [hstate, hops] at h1
+  rw [← h2] at h1
+  exact ⟨congrArg Prod.fst h1, congrArg Prod.snd h1⟩
+
+/-- instances that are never scheduled are untouched -/
+theorem untouched (step : σ → Op → Out × σ) (w : World σ) (sched : List (Nat × Op)) (i : Nat)
+    (h : opsOf i sched = []) : (runWorld step w sched).2 i = w i := by
+  have := frame step w sched i
+  rw [h] at this
+  exact congrArg Prod.snd this
+
+/-- non-vacuity: a concrete interleaving of two counters -/
+example : (runWorld (fun (s : Nat) (op : Nat) => (s + op, s + op)) (fun _ => 0)
+    [(0, 1), (1, 10), (0, 2), (1, 20)]).1 = [(0, 1), (1, 10), (0, 3), (1, 30)] := by decide
+
 end Rngs.C19
